@@ -8,3 +8,9 @@ def run(chk):
     ex = explore("step")
     handler_preamble(chk, ex, ["operation.step.StepOperationExecutor.check_result_status", "operation.step.StepOperationExecutor.execute", "operation.step.StepOperationExecutor.retry_handler"])
     hobl.c04(chk, ex)
+    # what the handler-level argument rests on (contracts used at the handler's call sites, discharged against their bodies):
+    from . import state_contracts, batcher
+    state_contracts.merge_all_pages(chk, "C04")      # the STARTED record left by a dead attempt is in the state, wherever the history page it is on
+    state_contracts.lookup_faithful(chk, "C04")      # ... and the lookup returns it
+    state_contracts.sync_blocks(chk, "C04")          # the synchronous START returns only through its completion event
+    batcher.check_consumer(chk, "C04")               # ... which is set only after the backend accepted the batch and its response was merged
